@@ -165,7 +165,11 @@ def scripted_class(nE, check, mixins=(), exo=('X',), style=None):
                 self.passes.append((p, iteration, self._cv(t), [float(self.__dict__['_' + n][t]) for n in names]))
 
     if mixins:  # mixins go on top, so that e.g. the tracer snapshots *after* the scripted pass has played
-        Scripted = type('ScriptedMixed', (*mixins, Scripted), {})
+        body = {}
+        if any(c.__name__ == 'AliasMixin' for c in mixins):
+            # every endogenous variable gets an alias and an alias of that alias
+            body['ALIASES'] = {**{'AL_' + nm: nm for nm in names}, **{'AL2_' + nm: 'AL_' + nm for nm in names}}
+        Scripted = type('ScriptedMixed', (*mixins, Scripted), body)
     _CLASSES[key] = Scripted
     return Scripted
 
